@@ -2,6 +2,7 @@
 #ifndef VF_HIST_CORE_H
 #define VF_HIST_CORE_H
 
+#include <sys/stat.h>
 #include <fcntl.h>
 #include <sys/wait.h>
 
@@ -1280,12 +1281,33 @@ class HistRunner {
     if (rc == 0) VF_FAIL("C20", "after %s the directory's LOCK cannot be taken by another process: the lock was not released", after);
     if (rc == 7) rep->count("cross_process_lock_release_probes");
   }
+  int lockprobe_seq = 0;
   bool cfg_lock_probes = true;    // the probes sit in C20's own operations only (each is a fork + exec)
 
   void op_lockprobe() {
     if (!db) { rep->count("skipped_ops"); return; }
     // while the handle is open another process must find the LOCK taken
     if (run_helper("--locktest") == 7) VF_FAIL("C20", "another process could take the LOCK of an open database");
+    // ldb_destroy of the open database: whatever it answers, it must not weaken the lock or touch the files when it refuses
+    if (lockprobe_seq++ % 2 == 0) {
+      if (sched_on) sched_quiesce();
+      struct stat st0, st1;
+      bool had = stat((dir + "/LOCK").c_str(), &st0) == 0;
+      auto files_before = snapshot_dir_bytes(dir);
+      DbOptions o3;
+      o3.build(cfg);
+      sched_call_begin();
+      int drc = ldb_destroy(dir.c_str(), &o3.opt);
+      sched_call_end();
+      if (drc != LDB_OK) {
+        if (sched_on) sched_quiesce();
+        if (snapshot_dir_bytes(dir) != files_before) VF_FAIL("C20", "a refused ldb_destroy (rc=%d) of the open database removed or changed its files", drc);
+        bool has = stat((dir + "/LOCK").c_str(), &st1) == 0;
+        if (had && (!has || st0.st_ino != st1.st_ino)) VF_FAIL("C20", "a refused ldb_destroy (rc=%d) removed or replaced the LOCK file that the open handle holds", drc);
+        if (run_helper("--locktest") == 7) VF_FAIL("C20", "after a refused ldb_destroy another process could take the LOCK of the open database");
+        rep->count("refused_destroys_of_open_database");
+      }
+    }
     // same process, second handle
     DbOptions o2;
     o2.build(cfg);
